@@ -959,13 +959,12 @@ def u_q_mlp(ctx):
             last = pol.q_network.layers[-1]
             pol = eqx.tree_at(lambda p: (p.q_network.layers[-1].weight, p.q_network.layers[-1].bias), pol,
                               (last.weight * 8.0, last.bias * 8.0))
-        return pol, None
+        return pol, 1e-4  # relative error allowed for the float32 forward pass
 
     def ref_q(pol, o):
         return np_mlp(pol.q_network, f64(o).ravel(), "relu")
 
-    q_leg(ctx, "q-mlp", lambda env, eps, key, v: (make(env, eps, key, v)[0], 1e-4), ref_q,
-          [2, 3, 4, 5] + ([] if ctx.quick else [9]))
+    q_leg(ctx, "q-mlp", make, ref_q, [2, 3, 4, 5] + ([] if ctx.quick else [9]))
     ctx.notes["exhaustive_subspaces"] = ["MLPQPolicy/Discrete(n): every non-empty mask for n <= 5 x epsilon in "
                                          f"{EPSILONS} per (policy, observation)"]
     ctx.require("q_draws_under_restricting_mask", 100000)
@@ -976,16 +975,14 @@ def u_q_mlp(ctx):
 
 
 def u_q_table(ctx):
-    """AbstractQPolicy.__call__ through a harness-defined stateful table policy with hostile Q-values."""
+    """AbstractQPolicy.__call__ through a harness-defined linear-table policy with hostile Q-values
+    (tiny / huge scales, exact ties between actions)."""
     from typing import ClassVar
 
     import jax
     from jax import numpy as jnp
-    from lerax.policy import AbstractPolicyState, AbstractQPolicy
+    from lerax.policy import AbstractQPolicy
     from lerax.space import Discrete
-
-    class TState(AbstractPolicyState):
-        calls: jax.Array
 
     class TableQ(AbstractQPolicy):
         name: ClassVar[str] = "TableQ"
@@ -999,7 +996,7 @@ def u_q_table(ctx):
             self.W, self.epsilon = jnp.asarray(W, dtype=jnp.float32), float(epsilon)
 
         def reset(self, *, key):
-            return TState(jnp.array(0, jnp.int32))
+            return None
 
         def q_values(self, state, observation):
             return state, self.W @ jnp.asarray(observation, dtype=jnp.float32)
@@ -1014,7 +1011,7 @@ def u_q_table(ctx):
     def ref_q(pol, o):
         return f64(np.asarray(pol.W)) @ f64(o)
 
-    # state argument is None in q_leg; q_values of TableQ passes it through untouched
+    # q_leg passes state None; TableQ.q_values hands the state through untouched
     q_leg(ctx, "q-table", make, ref_q, [2, 3, 4, 5] + ([] if ctx.quick else [7]))
     ctx.notes["exhaustive_subspaces"] = ["AbstractQPolicy (table)/Discrete(n): every non-empty mask for n <= 5 x "
                                          f"epsilon in {EPSILONS} per (policy, observation)"]
